@@ -292,6 +292,7 @@ func runScript(t *testing.T, tr *Tracer, sc *Script) {
 		results := atk.Attack(targeter, &scriptPacer{tr: tr, sc: sc, now: now, cap: paceCap(sc)}, time.Duration(sc.Du)*time.Millisecond, sc.Name)
 
 		consumerDone := make(chan struct{})
+		var received atomic.Int64 // results the consumer has taken so far
 		wg.Add(1)
 		go func() { // the consumer
 			defer wg.Done()
@@ -306,6 +307,7 @@ func runScript(t *testing.T, tr *Tracer, sc *Script) {
 					tr.Emit("Closed", KV{"t": now()})
 					return
 				}
+				received.Add(1)
 				tr.Emit("Recv", KV{"t": now(), "seq": r.Seq, "ts": r.Timestamp.Sub(start).Microseconds(),
 					"latency": r.Latency.Microseconds(), "err": r.Error != "", "name": r.Attack, "code": r.Code})
 			}
@@ -327,14 +329,22 @@ func runScript(t *testing.T, tr *Tracer, sc *Script) {
 		}
 		horizon := scriptHorizon(sc)
 
-		// the monitor: one Quiesce per instant
+		// the monitor: one Quiesce per instant.  The horizon is a bound on the instants a run needs when no backlog builds up;
+		// with zero waits and an unlimited pool the loop may release any number of hits in one instant before a stop is noticed
+		// (the goroutines of a bubble run in parallel), and a slow consumer then needs its time for each: as long as results
+		// keep being taken the run is making progress, and only a run that stands still beyond the horizon has failed to end
+		lastTaken, lastProgress := int64(0), 0
 		for inst := 0; ; inst++ {
 			synctest.Wait()
 			tr.Emit("Quiesce", KV{"t": now()})
 			select {
 			case <-consumerDone:
 			default:
-				if step := max(1, sc.StepMs); inst*step < horizon {
+				step := max(1, sc.StepMs)
+				if n := received.Load(); n != lastTaken {
+					lastTaken, lastProgress = n, inst
+				}
+				if inst*step < horizon || (inst-lastProgress)*step < horizonSlack {
 					time.Sleep(time.Duration(step) * time.Millisecond)
 					continue
 				}
